@@ -7,15 +7,15 @@ Inductive c14_case : Type :=
 | C14Tx (c : fcfg) (accts : list (string * (Z * bool))) (bals : list ((string * string) * Z))
         (watch dens : list string) (t : tx) (o : tx_obs).
 
-Definition c14_case_matches (sh : shape) (wired : bool) (k : c14_case) : bool :=
+Definition c14_case_matches (sh : shape) (wired : wiring) (k : c14_case) : bool :=
   match k with
   | C14Tx c accts bals ws ds t o =>
       match txs_match sh wired c ws ds (init_st accts bals []) [(t, o)] with Some _ => true | None => false end
   end.
-Fixpoint c14_mismatches_from (sh : shape) (wired : bool) (n : nat) (cs : list c14_case) : list nat :=
+Fixpoint c14_mismatches_from (sh : shape) (wired : wiring) (n : nat) (cs : list c14_case) : list nat :=
   match cs with [] => [] | k :: r => if c14_case_matches sh wired k then c14_mismatches_from sh wired (S n) r
                                      else n :: c14_mismatches_from sh wired (S n) r end.
-Definition c14_mismatches (sh : shape) (wired : bool) (cs : list c14_case) : list nat := c14_mismatches_from sh wired 0 cs.
+Definition c14_mismatches (sh : shape) (wired : wiring) (cs : list c14_case) : list nat := c14_mismatches_from sh wired 0 cs.
 
 (* ---------------------------------------------------------------- the property on real observations *)
 (* first message that hands a frozen denomination to an account other than its signer, with the
@@ -23,7 +23,7 @@ Definition c14_mismatches (sh : shape) (wired : bool) (cs : list c14_case) : lis
 Definition moves_frozen (f : filt) (o : tx_obs) (m : msg) : bool :=
   existsb (fun tr => (negb (str_in (fst tr) (msg_signers m))
                       && existsb (fun d => (spec_frozen f d && (0 <? lookup_bal (o_deltas o) (fst tr, d)))%bool) (denoms (snd tr)))%bool)
-          (transfers m).
+          (transfers (f_native f) m).
 (* "on the allowed-message list or a native-token transfer within the configured limit" *)
 Definition spec_allowed (f : filt) (m : msg) : bool :=
   (existsb (String.eqb (msg_type m)) (f_poor_msgs f)
@@ -45,7 +45,7 @@ Definition c14_clauses (k : c14_case) : list string :=
   | C14Tx c accts bals ws ds t o =>
       let f := c_filt c in
       let ms := t_msgs t in
-      let admitted := ((o_class o =? 0) || (o_class o =? 2))%bool in
+      let admitted := ((o_class o =? 0) || (o_class o =? 2) || (o_class o =? 4))%bool in
       if admitted then
         flag (negb (existsb (fun x => spec_frozen f (fst x)) (t_fee t))) "frozen_fee"
         ++ (if o_class o =? 0 then
@@ -67,9 +67,11 @@ Definition c14_clauses (k : c14_case) : list string :=
       else if o_class o =? 1 then
         (* the native token is never frozen: a clean native-only transaction on a healthy
            network with an in-range, covering fee and sufficient funds must not be refused *)
-        let payer := first_signer ms in
+        let payer := spec_payer t in
         let need := amt_of (t_fee t) (f_native f) + zsum (map (fun m => match m with MSend fr _ a => if String.eqb fr payer then amt_of a (f_native f) else 0 | _ => 0 end) ms) in
         if (native_only f t && t_sig_ok t && negb (is_nil ms) && negb (is_nil (t_fee t))
+            && String.eqb (t_payer t) "" && (0 <? t_gas t) && negb (t_granter t)
+            && forallb (fun m => match find (fun e => String.eqb (fst e) (first_signer [m])) (c_custody c) with Some _ => false | None => true end) ms
             && forallb (fun m => String.eqb (first_signer [m]) payer) ms
             && match lookup_str accts payer, t_seqs t with Some (q, _), [q'] => q =? q' | _, _ => false end
             && forallb (spec_coin_ok c) (t_fee t)
